@@ -351,7 +351,13 @@ pub fn conforms(expect: &J, got: &J) -> bool {
             let cands: Vec<&str> = got["cands"].as_array().map(|a| a.iter().filter_map(J::as_str).collect()).unwrap_or_default();
             let must = expect["must"].as_array().cloned().unwrap_or_default();
             let may = expect["may"].as_array().cloned().unwrap_or_default();
-            must.iter().all(|m| cands.contains(&m.as_str().unwrap_or("?")))
+            // after `--`: the metavariable of the positional item that takes the typed word is shown as a hint
+            let hint_ok = match expect.get("hint").and_then(J::as_str) {
+                Some(h) if !h.is_empty() => got["text"].as_str().unwrap_or("").contains(&format!("\t{}\t", String::from_utf8_lossy(&crate::val::dec(h)))),
+                _ => true,
+            };
+            hint_ok
+                && must.iter().all(|m| cands.contains(&m.as_str().unwrap_or("?")))
                 && cands.iter().all(|c| may.iter().any(|m| m.as_str() == Some(c)))
         }
         _ => true,
